@@ -75,6 +75,16 @@ func Shutdown(timeout time.Duration) {
 			srv.Shutdown(ctx)
 		}(srv)
 	}
+
+	// websocket sessions are hijacked connections which the http
+	// servers do not wait for: give them the same time to complete.
+	wg.Add(1)
+	go func() {
+		defer wg.Done()
+		ctx, cancel := context.WithTimeout(context.Background(), timeout)
+		defer cancel()
+		wsSessions.wait(ctx)
+	}()
 	wg.Wait()
 }
 
